@@ -713,3 +713,78 @@ Proof. vm_compute. reflexivity. Qed.
 Example doc4_only_inserts :
   exists kept, Kept toks_doc4 kept /\ Ins kept (estr tree_doc4).
 Proof. exact (Rel_true_only_inserts _ _ doc4_conserved). Qed.
+
+(* ----------------------------- string-level forms of the two readings *)
+
+(* C08, strict: str(parse(s)) is the concatenation of the tokens of s minus
+   argument spacers *)
+Theorem parse_strict_kept (s : str) user t :
+  parse s true user = Ok t ->
+  hypb (all_skip user) (fst (tokens_of_string s)) = true -> nobare t = true ->
+  exists kept, Kept (fst (tokens_of_string s)) kept /\ estr t = texts kept.
+Proof.
+  intros H Hb Hn. apply Rel_subsequence_chars.
+  exact (parse_conserves_strict s user t H Hb Hn).
+Qed.
+
+(* C07, tolerant: additionally closers may be inserted *)
+Theorem parse_tolerant_inserts (s : str) user t :
+  parse s false user = Ok t ->
+  hypb (all_skip user) (fst (tokens_of_string s)) = true -> nobare t = true ->
+  exists kept, Kept (fst (tokens_of_string s)) kept /\ Ins kept (estr t).
+Proof.
+  intros H Hb Hn. apply Rel_true_only_inserts.
+  exact (parse_conserves_tolerant s user t H Hb Hn).
+Qed.
+
+Example doc2_strict_kept :
+  exists kept, Kept toks_doc2 kept /\ estr tree_doc2 = texts kept.
+Proof. exact (parse_strict_kept doc2 [] tree_doc2 doc2_parses doc2_hyp doc2_nobare). Qed.
+Example doc4_tolerant_inserts :
+  exists kept, Kept toks_doc4 kept /\ Ins kept (estr tree_doc4).
+Proof. exact (parse_tolerant_inserts doc4 [] tree_doc4 doc4_parses doc4_hyp doc4_nobare). Qed.
+
+(* --------------------- no hypothesis of parse_roundtrip can be dropped *)
+(* Each witness was replayed on the real library (harness/impl.py):
+     str(parse('\\begin{ a }x\\end{a}')) == '\\begin{a}x\\end{a}'
+     str(parse('\\a {x}'))               == '\\a{x}'
+     str(parse('{\0a}'))                 == '{a}'                          *)
+
+(* doc5 = '\\begin{ a }x\\end{a}': the padded environment name is stripped *)
+Definition doc5 : str :=
+  [92; 98; 101; 103; 105; 110; 123; 32; 97; 32; 125; 120; 92; 101; 110; 100; 123; 97; 125]%N.
+(* doc6 = '{\0a}': the NUL at the start of a token is skipped *)
+Definition doc6 : str := [123; 0; 97; 125]%N.
+
+Definition all_but_hypb (s : str) (t : expr) : Prop :=
+  parse s true [] = Ok t /\ nobare t = true /\
+  no_arg_spacer (fst (tokens_of_string s)) = true /\
+  forallb (fun c => negb (ign c)) (categorize s) = true.
+
+Theorem roundtrip_needs_hypb :
+  exists s t, all_but_hypb s t /\ hypb (all_skip []) (fst (tokens_of_string s)) = false /\
+              estr t <> s.
+Proof.
+  exists doc5. eexists. unfold all_but_hypb.
+  split; [split; [vm_compute; reflexivity|]|]; vm_compute; repeat split; discriminate.
+Qed.
+
+Theorem roundtrip_needs_no_arg_spacer :
+  exists s t, parse s true [] = Ok t /\ nobare t = true /\
+              hypb (all_skip []) (fst (tokens_of_string s)) = true /\
+              forallb (fun c => negb (ign c)) (categorize s) = true /\
+              no_arg_spacer (fst (tokens_of_string s)) = false /\ estr t <> s.
+Proof.
+  exists doc3. eexists.
+  split; [vm_compute; reflexivity|]. vm_compute. repeat split. discriminate.
+Qed.
+
+Theorem roundtrip_needs_no_nul :
+  exists s t, parse s true [] = Ok t /\ nobare t = true /\
+              hypb (all_skip []) (fst (tokens_of_string s)) = true /\
+              no_arg_spacer (fst (tokens_of_string s)) = true /\
+              forallb (fun c => negb (ign c)) (categorize s) = false /\ estr t <> s.
+Proof.
+  exists doc6. eexists.
+  split; [vm_compute; reflexivity|]. vm_compute. repeat split. discriminate.
+Qed.
